@@ -70,6 +70,7 @@ class Trace:
         self.lib_calls = []      # every call to a function outside the repository (qname, loc)
         self.inlined = set()
         self.static_locals = []
+        self.mutable_statics = []
         self.setvar_all = []
         self.pruned = False
         self.vec_access = {}           # vecmodel: location of a subscript -> set of 'ok' / 'oob' / 'unknown'
@@ -246,6 +247,9 @@ class Evaluator:
                         self.trace.pre_reads.setdefault(t[1] + '*', e.get('l'))
                     return ('sym', t[1] + '*')
                 return ('deref', t)
+            if op == '&' and '::*' in str(e.get('t', '')) and strip(e['e'], casts=True).get('k') == 'declref':
+                # pointer to data member: &Class::member
+                return ('memptr', strip(e['e'], casts=True)['q'].split('::')[-1])
             if op == '&':
                 inner = strip(e['e'], casts=True)
                 if inner.get('k') == 'param' and not inner.get('foreign') and inner['i'] < len(fr['args']) and fr['args'][inner['i']][0] == 'alias':
@@ -286,6 +290,15 @@ class Evaluator:
             if op == ',':
                 self.E(e['a'], P, fr)
                 return self.E(e['b'], P, fr)
+            if op in ('->*', '.*'):
+                mp_ = self.E(e['b'], P, fr)
+                ob_ = strip(e['a'], casts=True)
+                if mp_[0] == 'memptr':
+                    node = {'k': 'member', 'n': mp_[1], 'base': e['a'], 'l': e.get('l')}
+                    pth = self.mpath(node, P, fr)
+                    if pth is not None:
+                        return self.read_member(pth, P, e.get('l'))
+                return ('unk', 'binop ' + op)
             a = self.E(e['a'], P, fr)
             b = self.E(e['b'], P, fr)
             f = self.fold_int(op, a, b, e.get('t'), e.get('l'))
@@ -1398,11 +1411,20 @@ class Evaluator:
                         P.locals[(fr['id'], v['id'])] = ('alias', v['init'], fr)
                         continue
                 if v.get('static') and not const_object_type(ty):
+                    self.trace.mutable_statics.append((v['n'], v.get('l')))
                     # a mutable function-local static keeps whatever an earlier call left in it: unknown on entry
                     P.locals[(fr['id'], v['id'])] = ('sym', 'static:%s:%s' % (fr['fn'].q if fr.get('fn') is not None else '?', v['n']))
                     continue
                 if v.get('init') is not None:
                     P.locals[(fr['id'], v['id'])] = self.E(v['init'], P, fr)
+                    if v.get('static'):
+                        # a const static is initialised once, on the first call: if its initialiser depends on run-time values
+                        # (parameters, members, arguments) it is state like any other static
+                        v0_ = P.locals[(fr['id'], v['id'])]
+                        dyn = [x for x in syms(v0_) if x != 'pi' and not x.startswith(('const:', 'fn:'))] or has_unk(v0_)
+                        if dyn:
+                            self.trace.mutable_statics.append((v['n'], v.get('l')))
+                            P.locals[(fr['id'], v['id'])] = ('sym', 'static:%s:%s' % (fr['fn'].q if fr.get('fn') is not None else '?', v['n']))
                     if v['n'] in self.freeze:
                         self.trace.frozen_values.setdefault(v['n'], []).append(P.locals[(fr['id'], v['id'])])
                 else:
@@ -1945,10 +1967,16 @@ def subterms(t):
     stack = [t]
     while stack:
         x = stack.pop()
+        if isinstance(x, dict):
+            stack.extend(x.values())       # fields of a struct value
+            continue
         if not isinstance(x, tuple):
             continue
         yield x
         for c in x[1:]:
+            if isinstance(c, dict):
+                stack.extend(c.values())
+                continue
             if isinstance(c, tuple):
                 if c and isinstance(c[0], str):
                     stack.append(c)
